@@ -275,3 +275,11 @@ def c11_superpose(ctx, n, anchor):
     ymax = max(im.origin[1] for im in imgs); ymin = min(im.opposite_corner[1] for im in imgs)
     ctx.ensure("canvas extent == extremal corners of the inputs", bool(np.allclose(out.dimensions, [ymax - ymin, xmax - xmin], rtol=1e-9, atol=0)) and bool(np.allclose(out.origin, [xmin, ymax], rtol=0, atol=h * 1e-6)))
     ctx.ensure("inputs untouched", all(im.img.shape == s.img.shape for im, s in zip(imgs, imgs)))
+
+
+@ob("C11.dep_cv2", kind="B", samples=(2, 6), funcs=[], tol=2e-7, cite="(validation of assumed dependency contracts)",
+    note="the cv2.resize(INTER_AREA) (dsize and fx / fy forms), cv2.split and cv2.merge stubs against the installed OpenCV")
+def c11_dep_cv2(ctx):
+    from contracts import deps_validation as dv
+    dv.dep_resize(ctx)
+    dv.dep_split_merge(ctx)
